@@ -20,7 +20,7 @@ func init() {
 			"(P04-steps) the step closures call AppendEntry / StartOpenRange / CloseOpenRange / AppendPause / ExtendPause with the command's own entry, time and summary, and switch closes and starts with one and the same time value; " +
 			"(P04-pause-arith) the pause loop extends by exactly minus the not-yet-captured whole minutes since the start and accounts for them; (P04-reject) the reconciler steps reject (second open range, nothing to close/pause) before modifying any line. " +
 			"Not covered: the records obtained by re-reading after a history (needs an abstract model evaluated on inputs), --resume selection, chronological placement arithmetic.",
-		rules: []ruleFn{ruleP04Creators, ruleP17StopFallback, ruleP17ErrAbort, ruleP04Steps, ruleP04PauseArith, ruleP04Reject, ruleP04ResumePrevious, ruleP04Resume, ruleP04PauseToken},
+		rules:   []ruleFn{ruleP04Creators, ruleP17StopFallback, ruleP17ErrAbort, ruleP04Steps, ruleP04PauseArith, ruleP04Reject, ruleP04ResumePrevious, ruleP04Resume, ruleP04PauseToken},
 		trusted: []string{"ApplyReconciler takes the first creator that yields a reconciler (P05-apply-abort checks the loop's abort discipline)"},
 	})
 }
